@@ -1769,7 +1769,19 @@ func SortServicesByCreationTime(services []*Service) []*Service {
 		if r := strings.Compare(i.Attributes.Name, j.Attributes.Name); r != 0 {
 			return r
 		}
-		return strings.Compare(i.Attributes.Namespace, j.Attributes.Namespace)
+		if r := strings.Compare(i.Attributes.Namespace, j.Attributes.Namespace); r != 0 {
+			return r
+		}
+		// Name and namespace are not unique for services derived from ServiceEntry: one entry yields a service per
+		// address, and several entries of a namespace may declare the same host. Order those by the defining object,
+		// hostname and address, so that the order is total and does not depend on the order of the input.
+		if r := strings.Compare(i.Attributes.K8sAttributes.ObjectName, j.Attributes.K8sAttributes.ObjectName); r != 0 {
+			return r
+		}
+		if r := strings.Compare(string(i.Hostname), string(j.Hostname)); r != 0 {
+			return r
+		}
+		return strings.Compare(i.DefaultAddress, j.DefaultAddress)
 	})
 	return services
 }
